@@ -25,6 +25,7 @@ type Cfg struct {
 	Deck      []string `json:"deck"`
 	Personas  []int    `json:"personas,omitempty"`
 	Hostile   bool     `json:"hostile"`
+	Noise     bool     `json:"noise,omitempty"` // in-place reloads and unexpected operations are mixed into the history
 }
 
 func rnd63(r *rand.Rand, n int64) int64 {
@@ -217,6 +218,7 @@ func genCfg(r *rand.Rand, g GenOpts) *Cfg {
 	}
 	c.Deck = shuffledDeck(r, c.Short)
 	c.Hostile = g.Hostile
+	c.Noise = r.Intn(6) == 0
 	// personas per seat
 	mix := r.Intn(8)
 	for i := 0; i < c.N; i++ {
